@@ -62,10 +62,11 @@ func (h *Hub) Run(closed chan struct{}) {
 				client.Cancel() //stop RelayIn() & RelayOut()
 				delete(h.Clients, rule.ID)
 			}
-			delete(h.Rules, rule.ID)
-
 			//record the new rule for later convenience in reporting
+			h.rulesMu.Lock()
+			delete(h.Rules, rule.ID)
 			h.Rules[rule.ID] = rule
+			h.rulesMu.Unlock()
 
 			// create new reconnecting websocket client
 			ws := reconws.New()
@@ -116,7 +117,9 @@ func (h *Hub) Run(closed chan struct{}) {
 					client.Cancel() //stop RelayIn() & RelayOut()
 				}
 				h.Clients = make(map[string]*Client)
+				h.rulesMu.Lock()
 				h.Rules = make(map[string]Rule)
+				h.rulesMu.Unlock()
 
 			} else {
 				if client, ok := h.Clients[ruleID]; ok {
@@ -125,7 +128,9 @@ func (h *Hub) Run(closed chan struct{}) {
 					delete(h.Clients, ruleID)
 				}
 
+				h.rulesMu.Lock()
 				delete(h.Rules, ruleID)
+				h.rulesMu.Unlock()
 
 			}
 		}
